@@ -4,7 +4,7 @@ from ..formulas_tie import validate
 from ..slchecks import RealOps, aspect, corr_bilform, describe, dummy_children, ok_aspect, random_real_mesh, seam_and_corner_pairs
 from .C04 import translate  # noqa: F401  (same generated formulas)
 
-PROP_MODS = ['Stbem.Props.C01']
+PROP_MODS = ['Stbem.Props.C01', 'Stbem.Props.PanelsTie']
 RULE = ('correspondence (exact): (i) the real bilform -- ordering/variable swap, the private panel recursion, every '
         'derived rule, the four-term time kernel, the closed-form path with its case split -- run on Q numbers with '
         'rational stand-ins, exact affine pieces and a rational log rule, against the Lean model: same rational '
@@ -16,6 +16,9 @@ TRUSTED = [
     'Lean 4.33 kernel; axioms propext, Classical.choice, Quot.sound only',
     'translate/formulas.py, validated on every run by exact execution of the real functions with stand-ins',
     'hand-written model lean/Stbem/Model/SingleLayer.lean tied by exact correspondence',
+    'control flow of __integrate / bilform / evaluate / MP_SL_matrix_col regenerated from the source on every run '
+    '(translate/panels.py -> lean/Stbem/Gen/Panels.lean) and proved equal to the hand-written model for all inputs '
+    '(Props/PanelsTie.lean); the translator is validated on every run by exact execution of the real methods',
     'assumed laws of the special functions (Ei\' = e^x/x, erf odd, erfc = 1 - erf, exp multiplicative)',
     'NOT covered by any theorem: that the fixed order-12 log rules resolve the heat kernel to 1e-7 (approximation '
     'theory + binary64 rounding) -- search only; this is why the claim is partial',
